@@ -16,7 +16,7 @@ ID = 'C09'
 LEVEL = 'exploration'
 TIERS = {
     'quick': {'subseeds': 32, 'examples': 14, 'steps': 20, 'wall_budget': 240, 'min_runs': 200, 'task_timeout': 900},
-    'thorough': {'subseeds': 640, 'examples': 60, 'steps': 28, 'wall_budget': 3300, 'min_runs': 400,
+    'thorough': {'subseeds': 480, 'examples': 40, 'steps': 26, 'wall_budget': 2400, 'min_runs': 300,
                  'task_timeout': 3000},
 }
 RULE = ('one case = one history of definition / use operations drawn by a Hypothesis rule-based state machine under '
